@@ -80,8 +80,29 @@ template<class T, size_t B, size_t M> void g_own_batch_la() {     // floating po
     auto r = sweep<T>(ops, 2, [](T* const* p) {
         TT& a = *reinterpret_cast<TT*>(p[0]);
         auto d = determinant(a); sink(d.data(), sizeof(T) * B);
+        auto iv = inverse(a); sink(iv.data(), sizeof(T) * B * M * M);
         (void)p; }, VG_SEED, 0u, alignof(TT));
     VG_DESC("own_batch_la T=%s B=%zu M=%zu", TN, B, M); print_report(desc, r);
+}
+// owning tensors on the heap: `new Tensor<…>` / std::vector<Tensor<…>>.  C++17 honours alignas in operator new; C++14 does
+// not (the storage is only malloc-aligned) although is_aligned() is true.
+template<class T, size_t N> void g_heap_new() {
+    Report r; long mis = 0;
+    Tensor<T,N>* kept[24] = {};
+    for (int it = 0; it < 24; ++it) {
+        char* pad = new char[8 + 16 * (it % 5)];
+        Tensor<T,N>* t = nullptr;
+        int rc = protect([&] {
+            t = new Tensor<T,N>();
+            t->iota(T(1)); Tensor<T,N> u = *t + *t; *t = u * T(2); sink_val(t->sum()); });
+        ++r.runs;
+        if (t && ((uintptr_t)t->data() % FASTOR_MEMORY_ALIGNMENT_VALUE)) ++mis;
+        if (rc == 1) { ++r.fault; char more[96]; std::snprintf(more, sizeof more, "sig=%d heap-tensor-misaligned-so-far=%ld", g_fault_sig, mis); r.note("FAULT", '-', 0, 0, more); }
+        kept[it] = t;
+        delete[] pad;      // the tensors are kept until the end so that later allocations land elsewhere
+    }
+    for (auto* t : kept) delete t;
+    VG_DESC("heap_new T=%s N=%zu std=%ld", TN, N, (long)__cplusplus); print_report(desc, r);
 }
 template<class T, size_t N> void g_own_1d() {     // owning tensor methods / reductions / element-wise at the guard
     using TT = Tensor<T,N>;
